@@ -1,13 +1,19 @@
 """C12 — results do not depend on the storage order of notes and events.
 
 Coq half (coq/Props/C12.v): perm_invariant_<op> theorems — `Permutation` of every
-repeated field gives Permutation-equal outputs — about the Gallina models that
-the C01/C02/C10/C13/C14/C07 checks tie to the code.
+repeated field gives Permutation-equal outputs (equal outputs for the event
+extractors) — about the Gallina models that the C01/C02/C03/C07/C10/C13/C14
+checks tie to the code.
 
 Implementation half (this module): the statement itself is evaluated on the real
-code: every operation is run on the sequence as generated and on a permuted
-copy (each repeated field shuffled), and the canonical (multiset) outputs are
-compared.  Thorough tier: all permutations of the notes for <= 5 notes.
+code: every operation is run on the sequence as generated and on permuted copies
+(each repeated field shuffled), and the canonical (multiset) outputs are compared.
+Thorough tier: all permutations of the notes for <= 5 notes.
+
+Model side (coq/Run/C12.v): for 13 of the 17 operations the imported models are run
+on the same original / permuted wire-format sequences, the multiset comparison is
+done inside the extracted Coq code, and the verdict (accepted or raises; which
+permuted copies give another result) must be the verdict computed on the real code.
 """
 import copy
 import hashlib
@@ -19,23 +25,37 @@ from vt import nsio
 ID = 'C12'
 META = {
     'level_text': (
-        'Proof (Coq): perm_invariant_<op> theorems for ALL sequences satisfying the distinctness hypotheses and ALL '
-        'permutations of each repeated field, about the Gallina models of transpose / stretch / shift / quantize '
-        '(validation verdict and per-element map) / sustain / extraction that the other checks tie to the code; '
-        'plus the property statement itself evaluated on the real implementation for every operation the property '
-        'lists (quantize, extract/split, sustain, transpose, stretch, MIDI export, frame pianoroll, Melody, DrumTrack, '
-        'ChordProgression, PianorollSequence, Performance): original vs permuted storage order, canonical multiset '
-        'outputs compared.'),
+        'Proof (Coq, 35 statements): perm_invariant_<op> theorems for ALL sequences satisfying the named distinctness '
+        'hypotheses and ALL permutations of each repeated field, about the Gallina models the other checks tie to '
+        'the code; plus the property statement itself evaluated on the real implementation for every operation the '
+        'property lists (original vs permuted storage order, canonical multiset outputs compared), plus the same '
+        'verdict computed by the models on the same inputs (coq/Run/C12.v).'),
     'level_note': (
-        'The theorems are about models; the tie for each model is its own property check (C01, C02, C07, C10, C13, '
-        'C14). Operations without a permutation theorem (MIDI export through pretty_midi, sequence_to_pianoroll '
-        '(numpy), Melody/Drum/Chord/Performance extraction) are covered by the implementation-side comparison only: '
-        'that part is tested, not proved.'),
+        'Permutation THEOREM (full strength): transpose_note_sequence, stretch_note_sequence, shift_sequence_times, '
+        '_quantize_notes / quantize_note_sequence_absolute / quantize_note_sequence (validation verdict + per-element '
+        'map, bit-exact float step function), _extract_subsequences, split_note_sequence (hop and list form), '
+        'split_note_sequence_on_time_changes, split_note_sequence_on_silence, PianorollSequence, DrumTrack, '
+        'ChordProgression, Melody, Performance/MetricPerformance event lists (+ program/is_drum), quantize-then-extract '
+        'end to end, MIDI export glue (note_sequence_to_pretty_midi without drop_events_n_seconds_after_last_note). '
+        'PARTIAL theorem: apply_sustain_control_changes — full statement only when the pedal is never pressed; '
+        'otherwise everything except the new end times of notes of pedalled instruments and total_time '
+        '(perm_invariant_sustain_partial; the missing part needs C14\'s open refinement sustain_refines_spec). '
+        'Implementation-side comparison ONLY (tested, not proved): sequence_to_pianoroll (numpy frame rolls), the '
+        'drop_events_n_seconds_after_last_note argument and pretty_midi internals of MIDI export, the end times '
+        'produced by sustain, NotePerformance. The theorems are about models; each model is tied to the code by its '
+        'own property check (C01, C02, C03, C07, C10, C13, C14) and, for permutation behaviour, by the model side of '
+        'this check.'),
 }
 RULE = ('one case = (operation, arguments, NoteSequence with no two same-pitch notes overlapping or coinciding and no two '
-        'state events of one kind sharing a time, permutation seed); non-trivial when at least one repeated field with '
-        '>= 2 elements is actually reordered; distinct by hash of the canonical case')
-ASSUMPTIONS = ['outputs are compared as multisets (notes, events sorted on all fields); numpy rolls compared exactly']
+        'state events of one kind sharing a time, permutation seed); generators add targeted material per operation '
+        '(abutting same-pitch notes inside a frame, events beyond the MIDI cut-off, notes starting together under a '
+        'pedal); non-trivial when at least one repeated field with >= 2 elements is actually reordered; distinct by '
+        'hash of the canonical case')
+ASSUMPTIONS = ['outputs are compared as multisets (notes, events sorted on all fields); numpy rolls compared exactly',
+               'event extractors: the quantifier is re-read on the quantized sequence (no two same-pitch notes '
+               'overlap or coincide in steps, no two chord annotations share a step); cases outside it are skipped',
+               'model side: transposition only with transpose_chords=False (chord figures are a separate encoding '
+               'in the C10 model); quantization and MIDI export have no model side here (float / microsecond models)']
 
 T = nsio.QUARTER_SEC
 OPS = ['quantize_rel', 'quantize_abs', 'extract_many', 'split_hop', 'split_time_changes', 'split_silence',
@@ -107,13 +127,15 @@ def _run(op, ns, args):
     if op == 'sustain':
         return _canon_seq(sl.apply_sustain_control_changes(ns))
     if op == 'transpose':
-        r, k = sl.transpose_note_sequence(ns, args[0], min_allowed_pitch=args[1], max_allowed_pitch=args[2])
+        r, k = sl.transpose_note_sequence(ns, args[0], min_allowed_pitch=args[1], max_allowed_pitch=args[2],
+                                          transpose_chords=bool(args[3]))
         return [_canon_seq(r), k]
     if op == 'stretch':
         return _canon_seq(sl.stretch_note_sequence(ns, args[0] / 4.0))
     if op == 'midi':
         from note_seq import midi_io
-        pm = midi_io.note_sequence_to_pretty_midi(ns)
+        pm = midi_io.note_sequence_to_pretty_midi(
+            ns, drop_events_n_seconds_after_last_note=(None if args[0] is None else args[0] / 4.0))
         insts = []
         for i in pm.instruments:
             insts.append([i.program, int(i.is_drum),
@@ -128,7 +150,8 @@ def _run(op, ns, args):
         import numpy as np
         r = sl.sequence_to_pianoroll(ns, frames_per_second=args[0], min_pitch=args[1], max_pitch=args[2],
                                      onset_mode=args[3], onset_length_ms=args[4], offset_length_ms=args[4],
-                                     min_frame_occupancy_for_label=0.0)
+                                     add_blank_frame_before_onset=bool(args[5]), onset_overlap=bool(args[6]),
+                                     min_frame_occupancy_for_label=args[7] / 4.0)
         return [[list(a.shape), _digest(np.ascontiguousarray(a).tobytes())] for a in r]
     # event-sequence extraction works on quantized sequences
     if op in ('melody', 'drums', 'chords', 'pianorollseq', 'metric_performance'):
@@ -191,12 +214,97 @@ def impl(case):
     return [base[0] if base[0] == 'OK' else base[1], len(perms), diffs[:3], _digest(base)]
 
 
+# ---------------------------------------------------------------- model side (coq/Run/C12.v)
+MODEL_OPS = {'transpose': 1, 'stretch': 2, 'extract_many': 4, 'split_hop': 5, 'split_time_changes': 6,
+             'split_silence': 7, 'sustain': 8, 'melody': 9, 'drums': 10, 'chords': 11, 'pianorollseq': 12,
+             'performance': 13, 'metric_performance': 13}
+FQ_OPS = ('melody', 'drums', 'chords', 'pianorollseq', 'metric_performance', 'performance')
+
+
+def _desc_wire(d):
+    return [d['notes'], d['tempos'], d['tsigs'], d['ksigs'], d['texts'], d['ccs'], d['bends'], d.get('sects', []),
+            d['total'], d.get('qsteps', 0), d.get('spq', 0), d.get('sps', 0), d.get('sub', [0, 0]),
+            d.get('tpq', 220), 0]
+
+
+def _descs(inp):
+    perms = inp.get('note_perms') or [None]
+    return [inp['seq']] + [_permute(inp['seq'], inp['seed'] + k, p) for k, p in enumerate(perms)]
+
+
 def model_input(case):
-    return None
+    """(op seq (permuted seqs) args...) for coq/Run/C12.v: the imported models are run on the sequence as
+    stored and on the same permuted copies impl() uses; None = no model side for this case."""
+    op, inp = case['op'], case['input']
+    args = inp['args']
+    code = MODEL_OPS.get(op)
+    if code is None:
+        return None
+    if op == 'transpose' and args[3]:
+        return None                     # chord figures are a separate encoding in the C10 model
+    descs = _descs(inp)
+    if op in FQ_OPS:
+        from note_seq import sequences_lib as sl
+        _quiet()
+        try:
+            if op == 'performance':
+                qs = [sl.quantize_note_sequence_absolute(nsio.to_proto(d), args[0]) for d in descs]
+            else:
+                qs = [sl.quantize_note_sequence(nsio.to_proto(d), args[0]) for d in descs]
+        except Exception:  # noqa  the quantizer rejects the sequence: nothing reaches the extractor
+            return None
+        if not _quantized_distinct(qs[0]):
+            return None
+        try:
+            wires = [nsio.to_wire(q) for q in qs]
+        except nsio.OffGrid:
+            return None
+    else:
+        wires = [_desc_wire(d) for d in descs]
+    opt = lambda x: [] if x is None else [x]  # noqa
+    if op == 'transpose':
+        margs = [args[0], args[1], args[2], 0]
+    elif op == 'stretch':
+        margs = [args[0], 4]
+    elif op == 'extract_many':
+        margs = [args[0]]
+    elif op == 'split_hop':
+        margs = [args[0], bool(args[1])]
+    elif op == 'split_time_changes':
+        margs = [bool(args[0])]
+    elif op == 'split_silence':
+        margs = [args[0]]
+    elif op == 'sustain':
+        margs = []
+    elif op == 'melody':
+        margs = [0, args[1], args[2], bool(args[3]), bool(args[4]), 1]
+    elif op == 'drums':
+        margs = [0, args[2], bool(args[4]), 0]
+    elif op == 'chords':
+        margs = [args[1], args[1] + args[2]]
+    elif op == 'pianorollseq':
+        margs = [args[1], args[2], args[3], bool(args[4])]
+    elif op == 'performance':
+        margs = [args[1], args[2], 100, opt(args[3])]
+    elif op == 'metric_performance':
+        margs = [args[1], args[2], args[0] * 4, opt(args[3])]
+    else:
+        return None
+    return [code, wires[0], wires[1:]] + margs
 
 
 def model_output(case, out):
-    return out
+    """-> [accepted?, number of permuted copies, indices (first 3) whose result differs as a multiset]"""
+    flags = out[1]
+    return [out[0] == 0, len(flags), [k for k, f in enumerate(flags) if not f][:3]]
+
+
+def equal(case, io, mo):
+    """The model's verdict (accepted / raises; which permuted copies give another result) is the verdict
+    computed on the real code."""
+    if not isinstance(io, list) or len(io) != 4:
+        return False
+    return [io[0] == 'OK', io[1], io[2]] == mo
 
 
 def oracle(case, io):
@@ -257,6 +365,52 @@ def gen_case(rng, op, max_notes=None):
                       max_instr=rng.choice([1, 2, 3]), meta=False, sects=False)
     # times on the coarse grid only for ops that multiply / quantize (exactness is not needed here, but
     # coincidences are wanted)
+    if op == 'pianoroll' and rng.random() < 0.7:
+        # same-pitch notes that abut inside one frame (off the frame grid), different velocities: the cells
+        # they share are written by both, last writer wins
+        for _ in range(rng.randint(1, 3)):
+            pitch = rng.choice([n[0] for n in d['notes']] or [60])
+            s0 = rng.randint(0, 30) * T
+            m = s0 + rng.randint(0, 4) * T + rng.choice([T // 3, T // 5, (2 * T) // 3, T // 64 + 7, 0])
+            e = m + rng.randint(0, 4) * T + rng.choice([T // 3, T // 7, T])
+            if s0 < m < e:
+                d['notes'].append([pitch, rng.randint(1, 60), s0, m, 0, 0, 0, 0, 0, 0])
+                d['notes'].append([pitch, rng.randint(61, 127), m, e, 0, 0, 0, 0, 0, 0])
+        rng.shuffle(d['notes'])
+    if op == 'sustain' and rng.random() < 0.6:
+        # pedal scenarios: several notes of different pitches starting TOGETHER on a pedalled instrument, some
+        # ending before the pedal is released (held), some after (still sounding): every per-instrument list of
+        # the state machine is then built in storage order
+        for _ in range(rng.randint(1, 2)):
+            i = rng.choice([n[4] for n in d['notes']] or [0])
+            t_on = rng.randint(0, 20) * T
+            t_off = t_on + rng.randint(2, 12) * T
+            d['ccs'].append([t_on, 0, 64, rng.choice([64, 100, 127]), i, 0, 0])
+            d['ccs'].append([t_off, 0, 64, rng.choice([0, 10, 63]), i, 0, 0])
+            if rng.random() < 0.4:
+                d['ccs'].append([t_off + rng.randint(1, 4) * T, 0, 64, 127, i, 0, 0])
+            s0 = max(0, t_on + rng.randint(-2, 6) * T)
+            for pitch in rng.sample(range(40, 80), rng.randint(2, 4)):
+                st = s0 if rng.random() < 0.8 else s0 + rng.randint(1, 3) * T
+                e = st + rng.randint(1, 14) * T
+                d['notes'].append([pitch, rng.randint(1, 127), st, e, i, 0, 0, 0, 0, 0])
+            if rng.random() < 0.5:      # a re-struck pitch while the pedal is down
+                n0 = d['notes'][-1]
+                d['notes'].append([n0[0], 90, n0[3] + rng.randint(0, 3) * T, n0[3] + 5 * T, i, 0, 0, 0, 0, 0])
+        rng.shuffle(d['notes'])
+        rng.shuffle(d['ccs'])
+    drop = None
+    if op == 'midi':
+        # drop_events_n_seconds_after_last_note (quarter seconds), with events stored beyond the cut-off
+        drop = rng.choice([None, None, 0, 1, 4, 8, 20])
+        if drop is not None and rng.random() < 0.7:
+            last = max([n[3] for n in d['notes']] or [0])
+            for _ in range(rng.randint(1, 2)):
+                late = last + drop * T + rng.randint(1, 8) * T
+                d['ccs'].insert(rng.randint(0, len(d['ccs'])),
+                                [late, 0, rng.choice([64, 7]), rng.randint(0, 127), 0, 0, 0])
+                d['bends'].insert(rng.randint(0, len(d['bends'])), [late + T, rng.randint(-100, 100), 0, 0, 0])
+            d['total'] = max(d['total'], late + T)
     d = _distinct(d)
     total = d['total']
     if op == 'quantize_rel':
@@ -278,12 +432,11 @@ def gen_case(rng, op, max_notes=None):
     elif op == 'sustain':
         args = []
     elif op == 'transpose':
-        args = [rng.randint(-20, 20), rng.choice([0, 21, 40]), rng.choice([127, 108, 80])]
-        d['texts'] = [t for t in d['texts'] if t[3] != 1 or t[2] != 'F#m7b5' or True]
+        args = [rng.randint(-20, 20), rng.choice([0, 21, 40]), rng.choice([127, 108, 80]), rng.random() < 0.5]
     elif op == 'stretch':
         args = [rng.choice([1, 2, 3, 4, 6, 8, 16])]
     elif op == 'midi':
-        args = []
+        args = [drop]
     elif op == 'pianoroll':
         # sequence_to_pianoroll assumes a single instrument: two control changes of one number at one time
         # are "two state events of one kind sharing a time" whatever their instrument field says
@@ -293,7 +446,8 @@ def gen_case(rng, op, max_notes=None):
                 seen.add((r[0], r[2])); keep.append(r)
         d['ccs'] = keep
         args = [rng.choice([4, 8, 16, 32]), rng.choice([0, 21]), rng.choice([108, 127]),
-                rng.choice(['window', 'length_ms']), rng.choice([0, 250])]
+                rng.choice(['window', 'length_ms']), rng.choice([0, 250]), rng.random() < 0.3,
+                rng.random() < 0.8, rng.choice([0, 0, 2])]
     elif op in ('melody', 'drums'):
         d = _single_tempo(rng, d)
         args = [rng.choice([1, 2, 4]), rng.randrange(3), rng.choice([1, 2]), rng.random() < 0.7, rng.random() < 0.5]
@@ -341,13 +495,40 @@ def corpus():
     b2['tempos'] = [[8 * T, 60 << 20], [4 * T, 90 << 20], [0, 120 << 20]]
     b2['notes'] = [[60, 100, 10 * T, 12 * T, 0, 0, 0, 0, 0, 0]]; b2['total'] = 12 * T
     for s in range(4):
-        out.append({'op': 'midi', 'input': {'seq': copy.deepcopy(b2), 'args': [], 'seed': s}})
+        out.append({'op': 'midi', 'input': {'seq': copy.deepcopy(b2), 'args': [None], 'seed': s}})
     # F7: two abutting same-pitch notes, PianorollSequence split_repeats
     b3 = copy.deepcopy(base)
     b3['tempos'] = []
     b3['notes'] = [[60, 100, 0, 2 * T, 0, 0, 0, 0, 0, 0], [60, 100, 2 * T, 4 * T, 0, 0, 0, 0, 0, 0]]
     for s in range(4):
         out.append({'op': 'pianorollseq', 'input': {'seq': copy.deepcopy(b3), 'args': [4, 0, 0, 127, True], 'seed': s}})
+    # MIDI export with drop_events_n_seconds_after_last_note: a stray control change / pitch bend beyond the
+    # cut-off stored among the in-range ones (an early exit from the loop would lose the later-stored ones)
+    b4 = copy.deepcopy(base)
+    b4['tempos'] = [[0, 120 << 20]]
+    b4['notes'] = [[60, 100, 0, 4 * T, 0, 0, 0, 0, 0, 0], [64, 100, 4 * T, 8 * T, 0, 0, 0, 0, 0, 0]]
+    b4['ccs'] = [[40 * T, 0, 64, 0, 0, 0, 0], [T, 0, 64, 127, 0, 0, 0], [3 * T, 0, 64, 0, 0, 0, 0],
+                 [6 * T, 0, 64, 127, 0, 0, 0]]
+    b4['bends'] = [[40 * T, 0, 0, 0, 0], [2 * T, 1000, 0, 0, 0], [5 * T, -1000, 0, 0, 0]]
+    b4['total'] = 40 * T
+    for s in range(6):
+        out.append({'op': 'midi', 'input': {'seq': copy.deepcopy(b4), 'args': [4], 'seed': s}})
+    # frame pianoroll: two same-pitch notes of different velocity abutting inside a frame, later one stored first
+    b5 = copy.deepcopy(base)
+    b5['tempos'] = [[0, 120 << 20]]
+    b5['notes'] = [[60, 100, T + T // 3, 4 * T, 0, 0, 0, 0, 0, 0], [60, 40, 0, T + T // 3, 0, 0, 0, 0, 0, 0],
+                   [64, 80, T, 3 * T, 0, 0, 0, 0, 0, 0]]
+    for s in range(6):
+        out.append({'op': 'pianoroll', 'input': {'seq': copy.deepcopy(b5),
+                                                 'args': [4, 60, 64, 'window', 0, False, True, 0], 'seed': s}})
+    # sustain: two notes starting together under the pedal, one held, one still sounding at the release
+    b6 = copy.deepcopy(base)
+    b6['tempos'] = []
+    b6['notes'] = [[64, 100, 0, 40 * T, 0, 0, 0, 0, 0, 0], [60, 100, 0, 16 * T, 0, 0, 0, 0, 0, 0]]
+    b6['ccs'] = [[24 * T, 0, 64, 0, 0, 0, 0], [4 * T, 0, 64, 127, 0, 0, 0]]
+    b6['total'] = 40 * T
+    for s in range(4):
+        out.append({'op': 'sustain', 'input': {'seq': copy.deepcopy(b6), 'args': [], 'seed': s}})
     return out
 
 
